@@ -400,6 +400,7 @@ retry_after_fb:
     // in scan_helper::scan_border comment:
     // "next node pointer must be logged before optimistic verify."
     border_node* to_bn = right_to_left ? bn->get_prev() : bn->get_next();
+    YAKUSHIMA_VERIF_POINT(SCAN_NEXT_LOADED, bn);
     // TODO check at resume, version
 
     std::size_t i = st->bi.perm_rank;
@@ -542,6 +543,7 @@ retry_after_fb:
     }
 
     // final check for atomicity
+    YAKUSHIMA_VERIF_POINT(SCAN_BEFORE_FINAL, bn);
     status check_status = iscan_check_retry(bn, v_at_fb, perm);
     if (check_status != status::OK) {
         if (early_abort) { return status::WARN_CONCURRENT_OPERATIONS; }
